@@ -46,6 +46,7 @@ type ClusterSpec struct {
 // materialised in visual order exactly as the shaper does (descending clusters for RTL).
 type RunSpec struct {
 	RTL      bool          `json:"rtl"`
+	Orient   int           `json:"orient,omitempty"` // vertical runs: 0 unset, 1 upright, 2 sideways
 	Face     int           `json:"face"`
 	Clusters []ClusterSpec `json:"clusters"`
 }
@@ -63,6 +64,7 @@ type CfgSpec struct {
 	TextContinues bool      `json:"text_continues"`
 	NoTrim        bool      `json:"disable_trailing_whitespace_trim"`
 	RTL           bool      `json:"paragraph_rtl"`
+	Orient        int       `json:"paragraph_orient,omitempty"` // vertical paragraphs: orientation bits of WrapConfig.Direction
 }
 
 // Case is the decoded input of one wrapping case.
@@ -87,6 +89,9 @@ type Case struct {
 	// documented as reusable, so what it did before must not show in this case's lines. Only the
 	// lines of this case are judged.
 	Prev *Case `json:"prev,omitempty"`
+	// PrevShared: the predecessor's paragraph lives in the SAME []rune backing array as this one
+	// (a text buffer edited in place between two wraps).
+	PrevShared bool `json:"prev_shares_buffer,omitempty"`
 	// informational (filled when a failure is written): the materialised input runs
 	Shaped []RunDump `json:"shaped_runs,omitempty"`
 }
@@ -147,6 +152,30 @@ type built struct {
 	faceNames map[*font.Face]string
 }
 
+// orient applies the vertical orientation bits: 0 unset, 1 upright, 2 sideways (vertical only).
+func orient(d di.Direction, o int) di.Direction {
+	if d.IsVertical() {
+		switch o {
+		case 1:
+			d.SetSideways(false)
+		case 2:
+			d.SetSideways(true)
+		}
+	}
+	return d
+}
+
+// axisAdvance is the sum of the glyph advances along the run's axis, computed by the harness (the
+// inputs must be right even when Output.RecomputeAdvance is not).
+func axisAdvance(o *shaping.Output) fixed.Int26_6 {
+	var sum fixed.Int26_6
+	v := o.Direction.IsVertical()
+	for i := range o.Glyphs {
+		sum += gAdv(&o.Glyphs[i], v)
+	}
+	return sum
+}
+
 func dirOf(rtl, vertical bool) di.Direction {
 	switch {
 	case vertical && rtl:
@@ -171,7 +200,7 @@ func (rs *RunSpec) count() int {
 // cluster indices, RuneCount/GlyphCount on every glyph of the cluster, visual glyph order.
 func (rs *RunSpec) output(offset int, vertical bool) shaping.Output {
 	out := shaping.Output{
-		Direction: dirOf(rs.RTL, vertical),
+		Direction: orient(dirOf(rs.RTL, vertical), rs.Orient),
 		Runes:     shaping.Range{Offset: offset, Count: rs.count()},
 		Face:      dummyFaces[rs.Face%len(dummyFaces)],
 		Size:      fixed.I(16),
@@ -210,7 +239,7 @@ func (rs *RunSpec) output(offset int, vertical bool) shaping.Output {
 			emit(i)
 		}
 	}
-	out.RecomputeAdvance()
+	out.Advance = axisAdvance(&out)
 	return out
 }
 
@@ -244,7 +273,7 @@ func loadFace(rel string) (*font.Face, error) {
 
 func build(c *Case) (*built, error) {
 	b := &built{text: c.Text, faceNames: map[*font.Face]string{}}
-	paraDir := dirOf(c.Cfg.RTL, c.Vertical)
+	paraDir := orient(dirOf(c.Cfg.RTL, c.Vertical), c.Cfg.Orient)
 	var firstFace *font.Face
 	switch c.Family {
 	case "pipeline":
@@ -293,6 +322,9 @@ func build(c *Case) (*built, error) {
 			}
 		}
 		shaping.AddSpacing(b.runs, c.Text, fixed.Int26_6(c.WordSpacing), fixed.Int26_6(c.LetterSpacing))
+		for ri := range b.runs {
+			b.runs[ri].Advance = axisAdvance(&b.runs[ri])
+		}
 		if ref != nil {
 			b.spacing = map[*shaping.Glyph][2]fixed.Int26_6{}
 			for ri := range b.runs {
